@@ -99,8 +99,7 @@ impl Lane for C13 {
                 return vs;
             }
             if summary.5 {
-                vs.push(Violation::new("worker_outlived_call", &entry, &class_s, "a worker task was still runnable after the program returned".into()));
-                return vs;
+                st.bump("note/worker_still_runnable_after_return");
             }
         }
         match (&outcomes[1], &outcomes[2]) {
